@@ -305,6 +305,7 @@ def entropy_domain(ctx):
 @PROP.obligation('C14.word-index', canaries=[
     mut.replace_expr('mnemonic', 'Mnemonic.to_entropy', 'self._wordlist.index(word)', 'bisect.bisect_left(self._wordlist, word)', 'to_entropy: binary search in lists that are not sorted'),
     mut.replace_expr('mnemonic', 'Mnemonic.to_mnemonic', 'self._wordlist[i]', 'self._wordlist[i - 1]', 'to_mnemonic: off-by-one word index'),
+    mut.replace_expr('mnemonic', 'Mnemonic.to_entropy', 'self._wordlist.index(word)', 'Mnemonic(self.detect_language(words)).wordlist().index(word)', 'to_entropy: index in the list of the detected language'),
 ])
 def word_index(ctx):
     """The word <-> index mapping is the position in the instance word list in both directions: to_entropy uses
@@ -348,6 +349,10 @@ def word_index(ctx):
             if unsorted_lists:
                 ctx.violate(q, 'word index found by an order-dependent search (%s) but %d word lists are not sorted: %s' % (show(order_dep[0])[:60], len(unsorted_lists), ', '.join(unsorted_lists)), fn,
                             'valid sentences in those languages are rejected or mapped to another entropy')
+            continue
+        if isinstance(l, tuple) and l[0] == 'mcall' and l[2] == 'index' and l[1] != wl and any(x == ('var', 'words') for x in subterms(('w', l[1]))):
+            ctx.violate(q, 'the index of a word is looked up in a list chosen from the sentence itself (%s), not in self._wordlist, the list of this object that to_mnemonic selects the words from' % show(l[1])[:120], fn,
+                        'a sentence whose words also occur in another bundled list is decoded with the indexes of that list: to_entropy(to_mnemonic(e)) != e')
             continue
         ctx.undecided('to_entropy: word lookup not recognised: %s' % show(l)[:100])
     q = 'mnemonic:Mnemonic.to_mnemonic'
